@@ -204,8 +204,8 @@ struct Run {
         if (api == 2) {
             v = v.substr(0, 20);
             if (s.chance(1, 8)) {   // formatted length exactly around the 1024 * 2^k sizes of the library's formatting buffer
-                static const size_t edge[] = {1024, 2048, 4096};
-                size_t len = edge[s.range(0, 2)] + (size_t)s.range(0, 3) - 2;
+                static const size_t edge[] = {16, 32, 64, 128, 256, 512, 1024, 1024, 2048, 4096, 8192};
+                size_t len = edge[s.range(0, 10)] + (size_t)s.range(0, 3) - 2;
                 v.clear(); uint32_t x = (uint32_t)s.u8() + 5; for (size_t i = 0; i < len; i++) { x = x * 1103515245u + 12345u; v.push_back((char)('a' + (x >> 16) % 26)); }
             }
         }
